@@ -450,8 +450,7 @@ ALLOWED_WRITERS = {
 ACCEPTED_LATE_THROWS = {
     'hexasm::tokenToInstr': 'default branch of the mnemonic switch; instruction directives are only ever constructed '
                             'with mnemonic tokens (parser switch / CodeBuffer::gen*), checked by C05/C01 label rules',
-    'hexasm::tokenToOprInstr': 'default branch; InstrOp validates its opcode in its constructor',
-    'hexasm::tokenEnumStr': 'default branch of an exhaustive switch over hexasm::Token',
+    'hexasm::tokenToOprInstr': 'default branch; InstrOp validates its opcode in its constructor (re-verified on every run)',
 }
 
 
@@ -509,6 +508,7 @@ def rule_r4(rep, idxs):
             ('throw reachable after the output file is opened (a rejected input leaves a truncated binary): ' +
              ', '.join('%s at %s' % kv for kv in bad.items())) if bad else
             'throw sites reachable after open: %s (all accepted internal-invariant defaults)' % sorted(reach))
+    verify_late_throw_exemptions(rep, idx)
     # emitBin callers construct CodeGen (label resolution, where assembler errors are raised) first: C++ scoping
     # guarantees construction precedes the member call; the remaining obligation is that validation lives in the
     # constructor path, i.e. resolveLabels is called from the constructor.
@@ -568,13 +568,90 @@ def rule_r7(rep, idxs):
     raise AnalysisBroken('emitBin no longer opens a std::fstream (anchor changed)')
 
 
+def verify_late_throw_exemptions(rep, idx, rid='R4'):
+    """The reasons recorded in ACCEPTED_LATE_THROWS are claims about the code; each is re-established on every run."""
+    from .. import ivinterp
+    from ..ivinterp import Thrown, const as iconst
+    toks = idx.enum('hexasm::Token')
+    # (a) tokenToOprInstr: every operand token that the InstrOp constructors accept is mapped without throwing
+    rec = idx.record('hexasm::InstrOp')
+    f_opr = idx.func('hexasm::tokenToOprInstr')
+    bad = []
+    n_acc = 0
+    for ctor in [c for c in rec.ctors if c.body is not None and not c.node.get('isImplicit') and len(c.params) >= 2]:
+        for name, v in sorted(toks.items()):
+            I = ivinterp.Interp(idx)
+            args = []
+            for prm in ctor.params:
+                t = qt(prm)
+                if 'Token' in t:
+                    args.append(iconst(32, True, toks['OPR'] if len([a for a in args if isinstance(a, ivinterp.IV)]) == 0 else v))
+                else:
+                    args.append(ivinterp.Obj('hexutil::Location', {}, 'location'))
+            try:
+                I.construct('hexasm::InstrOp', args)
+            except Thrown:
+                continue
+            except AnalysisBroken:
+                raise
+            n_acc += 1
+            try:
+                ivinterp.Interp(idx).invoke(f_opr, None, [iconst(32, True, v)])
+            except Thrown as e:
+                bad.append('InstrOp(%s) is constructed without complaint but tokenToOprInstr(%s) throws (%s)' % (name, name, e))
+    rep.add(rid, 'exemption-holds:hexasm::tokenToOprInstr', not bad and n_acc > 0, pos(f_opr.node) + ' hexasm::tokenToOprInstr',
+            ('; '.join(sorted(set(bad)))[:600] + ': the rejection surfaces only in getValue(), i.e. during emission, after the output file has '
+             'been opened') if bad else '%d (constructor, operand) pairs accepted; all are mapped' % n_acc)
+    # (b) tokenToInstr: every token with which an instruction directive is constructed has a case
+    f_ins = idx.func('hexasm::tokenToInstr')
+    accepted = set()
+    for name, v in toks.items():
+        try:
+            ivinterp.Interp(idx).invoke(f_ins, None, [iconst(32, True, v)])
+            accepted.add(name)
+        except Thrown:
+            pass
+    from . import c05 as _c05
+    rev = {v: k for k, v in toks.items()}
+    bad = []
+    n_sites = 0
+    for f in idx.all_funcs():
+        if f.body is None or f.node.get('isImplicit'):
+            continue
+        for c in calls_in(f.body):
+            kind, name, did, obj = callee_of(c)
+            if name != 'make_unique' or not any(t in qt(c) for t in ('InstrImm', 'InstrLabel', 'InstrStackOffset')):
+                continue
+            args = cast.call_args(c)
+            tok_args = [a for a in args if 'Token' in (dqt_all(a))]
+            tokv = cast.const_int(tok_args[0], idx) if tok_args else None
+            mn = [rev.get(tokv)] if tokv is not None else _c05._enclosing_case_tokens(idx, f, c, rev)
+            for m in mn:
+                n_sites += 1
+                if m not in accepted and 'InstrStackOffset' not in qt(c):
+                    bad.append('%s constructs an instruction with token %s at %s' % (f.qname, m, pos(c)))
+    rep.add(rid, 'exemption-holds:hexasm::tokenToInstr', not bad and n_sites >= 20, pos(f_ins.node) + ' hexasm::tokenToInstr',
+            '; '.join(bad)[:600] if bad else '%d (construction site, mnemonic) pairs, all have a case in tokenToInstr' % n_sites)
+
+
 def reachable_throws(idx, stmts, depth=10):
     """{qualified function: position} of throw expressions reachable through resolved callees."""
     out = {}
     seen = set()
 
+    def nodes_outside_throw_operands(node):
+        # calls in the operand of a throw expression run only while that throw (recorded for its owner) is being raised
+        if 'kind' not in node:
+            return
+        yield node
+        if node.get('kind') == 'CXXThrowExpr':
+            return
+        for c in children(node):
+            for y in nodes_outside_throw_operands(c):
+                yield y
+
     def visit(node, owner, d):
-        for x in walk(node):
+        for x in nodes_outside_throw_operands(node):
             if x['kind'] == 'CXXThrowExpr':
                 out.setdefault(owner, pos(x))
             if x['kind'] in cast.CALL_KINDS and d < depth:
